@@ -39,6 +39,7 @@ type vfSideCfg struct {
 	NilFail      bool   // leave FailedTimeout unset: default 25 s; FailTimeout is set to it
 	NomAttr      uint16 // WithNominationAttribute: a custom STUN attribute type for the nomination value
 	AutoRenom    bool   // WithAutomaticRenomination (1 ns interval): the controlling agent renominates on its own during check rounds
+	TCPActive    bool   // TCP4 enabled without a TCP mux and with active ICE-TCP left on: a passive TCP remote makes the agent create active local candidates (their dials fail at once: the simulated addresses do not exist on this machine)
 	TCPPassive   bool   // also gather ICE-TCP passive host candidates through the simulated TCP mux (active TCP disabled)
 }
 
@@ -237,6 +238,9 @@ func (s *vfSession) newSide(cfg vfSideCfg) (*vfSide, error) {
 		ac.NetworkTypes = append(append([]NetworkType{}, nts...), NetworkTypeTCP4)
 		ac.TCPMux = &vfSimTCPMux{sw: s.sw, owner: cfg.Name}
 		ac.DisableActiveTCP = true
+	}
+	if cfg.TCPActive && !cfg.TCPPassive {
+		ac.NetworkTypes = append(append([]NetworkType{}, nts...), NetworkTypeTCP4)
 	}
 	if cfg.NilDisc {
 		ac.DisconnectedTimeout = nil
